@@ -3,14 +3,32 @@ NOTES = ("All checks are driven by /verif/check (python3, stdlib). Specification
          "/verif/harness (binary gv) and the goml CLI are rebuilt from /repo's working tree on every run with --cfg goml_verif. "
          "Exit 0 = held (KNOWN-FINDING lines for defects listed in known_findings.json), 1 = VIOLATION, 2 = tool error.")
 ENGINES = [
-    {"name": "tlc", "path": "/verif/spec", "serves_properties": ["C05", "C13", "C15"],
+    {"name": "tlc", "path": "/verif/spec", "serves_properties": ["C01", "C02", "C05", "C09", "C13", "C15"],
      "kind_free_text": "TLA+ specifications model-checked / simulated by TLC 1.8"},
-    {"name": "gv", "path": "/verif/harness", "serves_properties": ["C05", "C13", "C15"],
+    {"name": "gv", "path": "/verif/harness", "serves_properties": ["C01", "C02", "C05", "C09", "C13", "C15"],
      "kind_free_text": "Rust conformance harness with path dependencies on /repo/crates/*, and the goml CLI built from /repo"},
 ]
 PENDING = "check not built yet in this round (planned in DESIGN.md §4); not a claim that the technique cannot apply"
 NOT_APPLICABLE = {p: PENDING for p in ["C%02d" % i for i in range(1, 21)]}
 CHECKS = {
+    "C01": {
+        "level": "translation_validation",
+        "technique": "two TLC-executed semantics: GomlSem.tla (source meaning) vs GoSem.tla run on the real compiler's emitted Go text; corpus re-compiled and executed against outputs recorded from real Go",
+        "text": "For every program of the enumerated families (evaluation-order, match matrices, numeric, closure, generic, call-form, derive templates) and seeded random type-directed programs, the outcome (stdout bytes, normal/failed end) of GoSem.tla on the Go text emitted by the real pipeline must equal the outcome of GomlSem.tla on the source; the repository corpus is re-compiled and its fresh Go executed by GoSem against the outputs recorded from real Go. GoSem is calibrated first on the recorded .go files (must reproduce the recorded outputs byte for byte).",
+        "note": "Trusted: GomlSem/GoSem as specifications (GoSem calibrated on 67+ recorded real-Go runs), the Go-subset parser and hoister, TLC. Bounded programs (<= 20000 source steps); floats only on exactly representable dyadic values; extern Go packages unsupported.",
+    },
+    "C02": {
+        "level": "translation_validation",
+        "technique": "GoStatic.tla (Go's static rules as a TLC-executed specification) over the emitted text of every accepted program, calibrated on the recorded corpus (accept 73, reject 058)",
+        "text": "The emitted Go of every accepted program (corpus, package projects, all generated families, random programs) is parsed by an independent Go-subset parser and walked by GoStatic.tla: declarations before use and once per scope, assignability incl. untyped-constant representability, call/return arity and types, expression-statement rule, unused locals/imports, terminating statements, switch rules. Calibration: every recorded corpus file real Go accepted must be accepted, the recorded rejected one must be rejected.",
+        "note": "Trusted: GoStatic.tla as a model of go/types for this subset (not go vet itself), goparse. Unknown constructs are 'unsupported', never violations.",
+    },
+    "C09": {
+        "level": "model_checking",
+        "technique": "TLC executes GomlSem.tla (left-to-right operand frames, short-circuit frames) and GoSem.tla on the emitted Go for effect-position templates of every n-ary construct, plus random programs",
+        "text": "Ticks, Ref updates and failing operations are placed in every operand / argument / field / branch / condition / discarded position of every n-ary construct (all 12 binary operators incl. order-sensitive operands, calls, methods, tuples, arrays, constructors, struct literals in permuted order, if/match/while, discarded conditionals and matches, unused lets in arms and loops); GomlSem.tla computes the expected output, GoSem.tla runs the compiler's Go; outcomes must be equal.",
+        "note": "Trusted as for C01. The `go` interleaving part is not yet included in this round's machinery (sequential effects only).",
+    },
     "C05": {
         "level": "model_checking",
         "technique": "TLC enumeration of all scoping skeletons with Scopes.tla (stack = declarative lexical resolution = implementation-shaped environment) + replay of every skeleton through the real AST->HIR lowering and the full compiler",
